@@ -2,7 +2,6 @@ package main
 
 import (
 	"fmt"
-	"go/token"
 	"os"
 
 	"golang.org/x/tools/go/ssa"
@@ -14,65 +13,32 @@ func init() {
 			c.Ok("debug", "", "off")
 			return
 		}
-		le := c.P.Locks()
-		for _, fn := range c.P.Funcs {
-			forEachInstr(fn, func(in ssa.Instruction) {
-				desc := ""
-				switch x := in.(type) {
-				case *ssa.Select:
-					desc = fmt.Sprintf("select blocking=%v:", x.Blocking)
-					for _, st := range x.States {
-						desc += " " + chanName(st.Chan) + fmt.Sprintf("(%v)", st.Dir)
+		for _, f := range []string{"ordered", "unordered", "unorderedChunks", "orderedMID", "unorderedMID", "orderedMIDMap", "unorderedMIDMap", "nBytes"} {
+			fv := c.field("reassemblyQueue", f)
+			for _, a := range c.P.Accesses(fv) {
+				if a.Kind == AccRead {
+					// map update / delete through a read
+					v := a.Instr.(ssa.Value)
+					for _, r := range *v.Referrers() {
+						switch x := r.(type) {
+						case *ssa.MapUpdate:
+							fmt.Printf("%-16s %-45s %s mapupdate\n", f, c.P.FuncName(a.Fn), c.Pos(x))
+						case ssa.CallInstruction:
+							if b, ok := x.Common().Value.(*ssa.Builtin); ok && b.Name() == "delete" {
+								fmt.Printf("%-16s %-45s %s delete\n", f, c.P.FuncName(a.Fn), c.Pos(x))
+							}
+						}
 					}
-				case *ssa.UnOp:
-					if x.Op == token.ARROW {
-						desc = "recv " + chanName(x.X)
-					}
-				case *ssa.Send:
-					desc = "send " + chanName(x.Chan)
-				case ssa.CallInstruction:
-					if sc := x.Common().StaticCallee(); sc != nil && sc.Pkg != nil && sc.Pkg.Pkg.Path() == "sync" && sc.Name() == "Wait" {
-						desc = "sync Wait " + sc.String()
-					}
-					if b, ok := x.Common().Value.(*ssa.Builtin); ok && b.Name() == "close" {
-						desc = "close " + chanName(x.Common().Args[0])
-					}
-					if x.Common().IsInvoke() && (x.Common().Method.Name() == "Read" || x.Common().Method.Name() == "Write") {
-						desc = "io " + x.Common().Method.Name()
-					}
+					continue
 				}
-				if desc == "" {
-					return
-				}
-				held := ""
-				for ctx, ls := range le.HeldAt(in) {
-					held += fmt.Sprintf(" [%s->%s]", le.String(ctx), le.String(ls))
-				}
-				fmt.Printf("%-45s %-14s %s   %s\n", c.P.FuncName(fn), c.Pos(in), desc, held)
-			})
+				fmt.Printf("%-16s %-45s %s %s\n", f, c.P.FuncName(a.Fn), c.Pos(a.Instr), a.Kind)
+			}
+		}
+		for _, tf := range [][2]string{{"chunkSet", "chunks"}, {"chunkSetMID", "chunks"}} {
+			for _, a := range c.P.Writes(c.field(tf[0], tf[1])) {
+				fmt.Printf("%-16s %-45s %s %s\n", tf[0]+"."+tf[1], c.P.FuncName(a.Fn), c.Pos(a.Instr), a.Kind)
+			}
 		}
 		c.Ok("debug", "", "dumped")
 	}})
-}
-
-func chanName(v ssa.Value) string {
-	if f, _ := loadedField(v); f != nil {
-		return f.Name()
-	}
-	switch x := v.(type) {
-	case *ssa.Call:
-		if x.Call.IsInvoke() {
-			return "." + x.Call.Method.Name() + "()"
-		}
-		if sc := x.Call.StaticCallee(); sc != nil {
-			return sc.Name() + "()"
-		}
-	case *ssa.Parameter:
-		return "param:" + x.Name()
-	case *ssa.FreeVar:
-		return "free:" + x.Name()
-	case *ssa.Phi:
-		return "φ"
-	}
-	return v.Name()
 }
